@@ -67,19 +67,20 @@ partial def parseVal (toks : List String) : Option (Val × List String) :=
     | 'L' :: n => parseSeq .list (String.ofList n) rest
     | 'T' :: n => parseSeq .tuple (String.ofList n) rest
     | 'R' :: n => match (String.ofList n).toNat? with
-      | some k => if k > maxCount || n.isEmpty then none else
+      | some k => if k > maxCount || n.isEmpty || !n.all Char.isDigit then none else
         match parseMany (2 * k) rest [] with
         | some (vs, rest') =>
           let rec pairUp : List Val → List (Val × Val)
             | a :: b :: tl => (a, b) :: pairUp tl
             | _ => []
-          some (.tree (treeOf (valCmp ops) (pairUp vs)), rest')
+          -- the validity rule is evaluated on the entries as written (the harness does the same), then the Tree is built
+          if (Val.tree (pairUp vs)).valid then some (.tree (treeOf (valCmp ops) (pairUp vs)), rest') else none
         | none => none
       | none => none
     | _ => none
 partial def parseSeq (k : SeqKind) (n : String) (rest : List String) : Option (Val × List String) :=
   match n.toNat? with
-  | some cnt => if cnt > maxCount || n.isEmpty then none else
+  | some cnt => if cnt > maxCount || n.isEmpty || !n.toList.all Char.isDigit then none else
     (parseMany cnt rest []).map (fun (vs, rest') => (.seq k vs, rest'))
   | none => none
 partial def parseMany (n : Nat) (toks : List String) (acc : List Val) : Option (List Val × List String) :=
